@@ -40,8 +40,29 @@ def leaf_contract(ctx, prog):
            {"fcntl_cmds": cmds, "masks": sel})
     I = new_interp(prog)
     I.overrides.pop("pipe_nonblocking", None)
-    res = I.run(F, [State()])
+
+    def setfl_hook(I_, fn, n, name, args, st):
+        if name == "fcntl" and len(args) > 2 and args[1] == fs(4):
+            s2 = st.copy()
+            s2.mon["setfl"] = args[0]
+            return s2
+        return None
+    I.hooks_call.append(setfl_hook)
+    pc = ("v", F.gdid(F.params[0]["did"]))
+    entries = []
+    for en in (0, 1):
+        st0 = State()
+        st0.mem[pc] = I.nonneg()        # any descriptor number, 0, 1 and 2 included
+        st0.mem[("v", F.gdid(F.params[1]["did"]))] = fs(en)
+        st0.mon["given"] = st0.mem[pc]
+        entries.append(st0)
+    res = I.run(F, entries)
     for s, rv in res.exits:
+        if not s.mon.get("failed"):
+            ctx.ob("C17.N0w", "pipe_nonblocking [ok]", "whenever the helper reports success it has written "
+                   "the flags back (F_SETFL) to the descriptor it was given - whatever its number (a pipe end may well be numbered 0, 1 or 2 "
+                   "when the parent runs with those closed)", s.mon.get("setfl") is not None and s.mon.get("setfl") <= s.mon["given"],
+                   {"F_SETFL_on": show(s.mon.get("setfl"))[:60] if s.mon.get("setfl") else None}, nontrivial=True)
         if s.mon.get("failed"):
             ctx.ob("C17.N0e", "pipe_nonblocking [fcntl fails]", "a failing fcntl is reported as a negative error", all_neg(rv), {"returns": show(rv)[:40]}, nontrivial=True)
         else:
@@ -118,6 +139,9 @@ def inventory_rules(ctx, prog):
         ctx.stats("E-ABS", I.stats)
         worst = max([s.mon.get("n_" + op, 0) for s, rv in res.exits] + [0])
         other = sorted({e[0] for e in res.events if e[0] in ("poll", "waitpid", "read", "write", "kill", "fork") and e[0] != op})
+        # calls the library models know nothing about: none is expected here; in particular nothing that can wait for another
+        # thread or for time to pass (locks, condition variables, sleeps, select ...)
+        other += sorted({"%s()" % e[3] for e in res.events if e[0] == "unknown-call"})
         ctx.ob("C17.N4", f, "a call makes at most one %s() and no other call that can wait (no poll, no retry loop), so it blocks or does "
                "not block exactly as the descriptor's mode says" % op, worst <= 1 and not other, {"max_%s_calls" % op: worst, "other_waiting_calls": other},
                nontrivial=True)
